@@ -21,7 +21,7 @@ RULE = ("spelling groups derived from the op table and the registries at run tim
         "non-constant tensors while accepting constant ones with NumPy's values. Non-trivial: >=2 spellings compared; distinct = "
         "(function, spelling set, option keys, operand kinds).")
 ASSUMPTIONS = ["the first listed spelling (mg.f) is the reference; spellings are compared with each other, not with NumPy (C03 does that)"]
-TIERS = {"quick": {"cases": 3000}, "thorough": {"cases": 400000}}
+TIERS = {"quick": {"cases": 12000}, "thorough": {"cases": 400000}}
 FLOORS = {"quick": {"spellings_compared": 4000, "negative_checks": 50},
           "thorough": {"spellings_compared": 20000, "negative_checks": 50}}
 
